@@ -55,6 +55,10 @@ class IntegratorTemplate(abc.ABC):
             rtol = self.solver_dict['rtol']
             dState = self.solver_dict['dState']
             order = self.solver_dict['order']
+            if not (D.ar_numpy.all(D.ar_numpy.isfinite(diff)) and D.ar_numpy.all(D.ar_numpy.isfinite(dState))):
+                # an attempt that overflowed says nothing about the error: reject it and keep inf/nan out of
+                # the controller's memory, otherwise every retry of this step is rejected as well
+                return 0.5 * timestep, True
             if "system_scaling" in self.solver_dict:
                 self.solver_dict["system_scaling"] = 0.8 * self.solver_dict["system_scaling"] +  0.2 * D.ar_numpy.maximum(D.ar_numpy.abs(initial_state), D.ar_numpy.abs(dState / timestep))
             else:
